@@ -377,7 +377,7 @@ def run(ctx):
         if len(ctx.samples) > 8:
             res["samples"] = []
         ctx.merge(res)
-    _gl_exactness(ctx)
+    ctx.guarded("gl-exactness", _gl_exactness, ctx)
     ctx.cov["cases"] = len(jobs)
     ctx.cov["transform_configs"] = {"pm1": len(pm1), "half_line": len(half)}
     ctx.exhaustive = True
